@@ -30,6 +30,7 @@ EXPLANATION = (
 EXPLANATION += (" R-C14-3: histogram combination aggregates the concatenated histograms per class with the requested method; the overlap share telescopes on every ordering of the interval bounds. R-C14-4: the range/mean histogram is fed with 2*amplitude and meanstress on both orderings of from/to, the range histogram counts 2*amplitude of the same collective, and re-binning selects each level's binning by the level's name.")
 EXPLANATION += (' R-C14-5: the histogram utilities (re-binning, combination) apply no constant positional access or order-sensitive operation to the source histogram or its index (order-class analysis), so the result does not depend on the order in which the source classes are listed.')
 EXPLANATION += (" R-C14-6: np.histogram / np.histogram2d in LoadCollective.range_histogram and .histogram are called with weights derived from the collective's cycles.")
+EXPLANATION += (" R-C14-7 (memo rule): no caching decorator or unreset memo attribute in the collective / histogram accessor classes, including writes by the owner object into its implementation object (use_class_left/right set _impl._class_location). R-C14-8: the class counts returned by np.histogram / np.histogram2d reach the returned series without integer coercion or rounding (astype(int...), int(), floor/round, //, dtype=int).")
 ASSUMPTIONS = ["DataFrame.max(axis=1)/min(axis=1) over the two columns is the row-wise max/min", "range >= 0"]
 
 
@@ -153,6 +154,93 @@ def run(ctx):
     ctx.attempt(_r4)
     ctx.attempt(_r5)
     ctx.attempt(_r6)
+    ctx.attempt(_r7)
+    ctx.attempt(_r8)
+
+
+LOSSY_CALLS = {"int", "round", "np.floor", "np.ceil", "np.rint", "np.round", "np.around", "np.trunc", "np.fix", "math.floor",
+               "math.ceil", "math.trunc", "np.int64", "np.int32", "np.intp"}
+INT_TYPES = {"int", "np.int64", "np.int32", "np.int16", "np.int8", "np.intp", "np.int_", "np.uint64", "np.uint32", "'int'",
+             "'int64'", "'int32'", "'i8'", "'i4'", "np.integer"}
+
+
+def _lossy_sites(fn_node):
+    """Integer coercions / roundings applied to values derived from the result of a np.histogram* call in fn_node
+    (nested functions included)."""
+    derived = set()
+    for st in ast.walk(fn_node):
+        if isinstance(st, ast.Assign) and isinstance(st.value, ast.Call) and (call_name(st.value) or "") in \
+                ("np.histogram", "np.histogram2d", "np.histogramdd"):
+            t = st.targets[0]
+            first = t.elts[0] if isinstance(t, ast.Tuple) else t
+            if isinstance(first, ast.Name):
+                derived.add(first.id)
+    changed = True
+    while changed:
+        changed = False
+        for st in ast.walk(fn_node):
+            if isinstance(st, ast.Assign) and isinstance(st.targets[0], ast.Name) and st.targets[0].id not in derived and \
+                    {x.id for x in ast.walk(st.value) if isinstance(x, ast.Name)} & derived:
+                derived.add(st.targets[0].id)
+                changed = True
+    out = []
+
+    def uses(e):
+        return bool({x.id for x in ast.walk(e) if isinstance(x, ast.Name)} & derived)
+    for n in ast.walk(fn_node):
+        if isinstance(n, ast.Call):
+            cn = call_name(n) or ""
+            if cn in LOSSY_CALLS and n.args and uses(n.args[0]):
+                out.append(n)
+            elif isinstance(n.func, ast.Attribute) and n.func.attr in ("round", "floor", "ceil") and uses(n.func.value):
+                out.append(n)
+            elif isinstance(n.func, ast.Attribute) and n.func.attr == "astype" and uses(n.func.value) and n.args and \
+                    norm_text(n.args[0]) in INT_TYPES:
+                out.append(n)
+            elif any(k.arg == "dtype" and norm_text(k.value) in INT_TYPES for k in n.keywords) and \
+                    any(uses(a) for a in n.args):
+                out.append(n)
+        elif isinstance(n, ast.BinOp) and isinstance(n.op, ast.FloorDiv) and uses(n.left):
+            out.append(n)
+    return derived, out
+
+
+def _r8(ctx):
+    """Weighted class counts stay what np.histogram returned: cycle counts of a collective need not be whole numbers (half
+    cycles of residuals, scaled counts), so an integer coercion or rounding of the counts loses cycles and the class counts no
+    longer sum to the number of cycles."""
+    prog = ctx.prog
+    ctx.rule("R-C14-8", floor=2, what="class counts returned by np.histogram* reach the result without integer coercion/rounding")
+    ex = ast.parse("def f(g, b, w):\n    c, e = np.histogram(g, b, weights=w)\n    return pd.Series(c.astype(np.int64))\n").body[0]
+    if len(_lossy_sites(ex)[1]) != 1:
+        raise AnalysisError("R-C14-8 built-in example not matched")
+    lc = prog.cls(LC)
+    for name in ("range_histogram", "histogram"):
+        f = prog.lookup_method(lc, name)
+        derived, bad = _lossy_sites(f.node)
+        if not derived:
+            raise AnalysisError("%s: result of the histogram call not found" % name)
+        for b in bad:
+            ctx.violated(f, b, "%s: %s converts the weighted class counts to whole numbers: a collective with fractional cycle "
+                         "counts (e.g. 0.5 per residual half cycle) loses cycles, the class counts do not sum to the number of "
+                         "cycles" % (name, norm_text(b)[:80]), text="integer counts " + name)
+        if not bad:
+            ctx.holds(f, f.node, "%s: counts %s reach the result unrounded" % (name, "/".join(sorted(derived))))
+
+
+def _r7(ctx):
+    """Nothing derived from the class limits of a histogram is cached across a change of the class location
+    (use_class_left / use_class_right re-configure the implementation object) or of the data."""
+    from .. import memo
+    prog = ctx.prog
+    ctx.rule("R-C14-7", floor=1, what="no cache in the collective / histogram accessors outlives a re-configuration")
+    LHM = "pylife.stress.collective.load_histogram"
+    classes = [ci for key, ci in sorted(prog.classes.items()) if ci.module.name in
+               (LHM, "pylife.stress.collective.load_collective", "pylife.stress.collective.abstract_load_collective")]
+    if len(classes) < 5:
+        raise AnalysisError("collective classes not found")
+    memo.run_rule(ctx, classes=classes, modules=[LHM, "pylife.stress.collective.load_collective", "pylife.utils.histogram"],
+                  what="collectives / histograms")
 
 
 def _r6(ctx):
